@@ -18,6 +18,10 @@ class Obj:
         self.name = name
 
 
+def _s(x):
+    return 'n' if x is None else x
+
+
 class UserAct:
     def __init__(self, tr, uid, act, obj, ov):
         self.tr, self.uid, self.act, self.obj, self.ov = tr, uid, act, obj, ov
@@ -44,9 +48,10 @@ class STracer:
             def default_action(self, obj, time, new_state):
                 tr.calls.append([obj.name, 0])
                 # during the call the scheduler is already in the new state
-                tr.args.append([bool(self.current_state == new_state), _t(time), new_state])
+                tr.args.append([bool(self.current_state == new_state), _t(time), _s(new_state)])
 
-        sched = [(d * TICK, s) for d, s in self.tt]
+        # the token 'n' stands for the state None (states may be any object, None included)
+        sched = [(d * TICK, None if s == 'n' else s) for d, s in self.tt]
         if cyc == 'default':
             self.sch = Sch(sched, name='sch')
         else:
@@ -63,7 +68,7 @@ class STracer:
 
     def override(self, sched, obj, time, state):
         self.calls.append([obj.name, 1])
-        self.args.append([bool(sched is self.sch and sched.current_state == state), _t(time), state])
+        self.args.append([bool(sched is self.sch and sched.current_state == state), _t(time), _s(state)])
 
     def do_reg(self, act, obj, ov):
         o = self.objs[obj]
@@ -93,11 +98,11 @@ class STracer:
         st = sch.current_state
         return {'now': _t(env.now), 'tt': self.tt, 'cyc': self.cyc != 'no',
                 'idx': (sch._schedule_index + 1) if started else 0,
-                'state': '-' if st is None else st,
+                'state': ('n' if started else '-') if st is None else st,      # before the start there is no state yet
                 'reg': [list(r) for r in self.reg],
                 'preg': [[o.name, 0 if a is None else 1] for o, a in sch._registered_objects.items()],
                 'started': started, 'evq': evq, 'calls': [list(c) for c in self.calls],
-                'nrec': len(recs), 'lastrec': [_t(recs[-1][0]), recs[-1][1]] if recs else [0, '-'],
+                'nrec': len(recs), 'lastrec': [_t(recs[-1][0]), _s(recs[-1][1])] if recs else [0, '-'],
                 'nuid': self.nuid + 1}
 
     def log(self, ev):
@@ -108,7 +113,16 @@ class STracer:
         env = self.env
         orig = env.step
 
+        guard = {'now': None, 'n': 0}
+
         def step():
+            # a changed scheduler that re-arms itself at one instant for ever must end the run, not the machine's memory
+            if guard['now'] == env.now:
+                guard['n'] += 1
+                if guard['n'] > 1500:
+                    raise RuntimeError('NONTERMINATION: more than 1500 events dispatched at time %r' % (env.now,))
+            else:
+                guard['now'], guard['n'] = env.now, 0
             if self.first:
                 self.first = False
                 self.log({'op': 'step', 'kind': 'start', 'args': self.args})
@@ -171,6 +185,9 @@ def run_random(tid, seed, n):
         cyc = rng.choice(['yes', 'no', 'default'])
         if cyc == 'no' or sum(d for d, _ in tt) > 0:
             break
+    if seed % 4 == 0:
+        # every fourth timetable uses None as a state (drawn as 'c': the random stream is the same as before)
+        tt = [[d, 'n' if st == 'c' else st] for d, st in tt]
     ops = [{'op': 'cfg', 'tt': tt, 'cyc': cyc}]
     for _ in range(n):
         x = rng.random()
